@@ -5,8 +5,14 @@ import numpy as np
 from common import *
 
 ID = 'C08'
-COQ_FILES = ['Base/Mat.v', 'Base/SumQ.v', 'Base/ListX.v', 'Model/Between.v', 'Properties/C08.v']
-THEOREMS = []
+COQ_FILES = ['Base/Mat.v', 'Base/SumQ.v', 'Base/ListX.v', 'Model/Between.v', 'Proofs/BetweenAccum.v',
+             'Proofs/BetweenReady.v', 'Proofs/BetweenQueue.v', 'Proofs/BetweenBin.v', 'Proofs/BetweenSpec.v',
+             'Properties/C08.v']
+THEOREMS = ['C08_spec_enumeration_faithful', 'C08_dist_spec_correct', 'C08_shortest_walks_simple',
+            'C08_bin_sum_BC', 'C08_bin_sum_EBC', 'C08_brandes_accumulation', 'C08_brandes_accumulation_node',
+            'C08_dag_counts_exist', 'C08_queue_slots_wei', 'C08_queue_slots_bin',
+            'C08_ebc_wei_pairsums_partial', 'C08_bc_wei_pairsums_partial', 'C08_ebc_bin_pairsums_partial',
+            'C08_ebc_node_vector_eq_bc_wei']
 RULE = ('every labelled digraph on n<=3 nodes (n<=4 thorough, a random slice of n=4 in quick), every labelled undirected '
         'graph on n<=4 nodes (n<=5 thorough, a slice of n=5 in quick); random directed / undirected graphs n=2..7 with '
         'integer connection lengths drawn from {1,2,3} or {1,2} (many exact ties between alternative routes) at densities '
